@@ -1076,6 +1076,32 @@ pub fn scale_by_route(mask: u16, route: u8) -> Vec<Op> {
             f.extend(non.iter().copied());
             vec![Op::Forbid(f), Op::Allow(vec![y, y]), Op::Forbid(vec![y])]
         }
+        5 => {
+            // more forbidden than needed, then the surplus (the highest members) allowed again by ONE call that names
+            // each of them twice, the repeats first: whatever bookkeeping allow() does per argument entry must not
+            // run out of room before the last new note is reached
+            let surplus: Vec<u8> = members.iter().rev().take(members.len().saturating_sub(1).min(3)).copied().collect();
+            let mut f: Vec<u8> = non.clone();
+            f.extend(surplus.iter().copied());
+            let mut a: Vec<u8> = Vec::new();
+            for (i, n) in surplus.iter().rev().enumerate() {
+                a.push(*n);
+                if i + 1 < surplus.len() || surplus.len() == 1 {
+                    a.push(*n);
+                }
+            }
+            let mut ops = Vec::new();
+            if !f.is_empty() {
+                ops.push(Op::Forbid(f));
+            }
+            if !a.is_empty() {
+                ops.push(Op::Allow(a));
+            }
+            if ops.is_empty() {
+                ops.push(Op::Allow(vec![0, 0]));
+            }
+            ops
+        }
         _ => {
             let mut ops = Vec::new();
             for n in non.iter().rev() {
@@ -1099,7 +1125,7 @@ fn c08_edit_paths(ctx: &Ctx, masks: &[u16], grid: &[f32]) -> Report {
         while k < masks.len() {
             let mask = masks[k];
             k += shards;
-            for route in 0..5u8 {
+            for route in 0..6u8 {
                 let ops = scale_by_route(mask, route);
                 let mut last: Option<(f32, u8)> = None;
                 let mut j = (mask as usize + route as usize) % 7;
